@@ -1133,6 +1133,20 @@ def _gen_paint(world, rnd, bad=False) -> dict:
             idx = np.nonzero(seg[t] == value)
             op["pixels"] = [a[:2].tolist() for a in idx]
             op["report_unchanged"] = True
+    if value == 0 and world.frames > 1 and rnd.random() < 0.2 and not op.get("report_unchanged"):
+        # an eraser stroke across two time points (a brush spanning the time axis of a 2D+t
+        # layer): valid - every group is reported per (old label, time point)
+        t2 = (t + 1 + rnd.randint(0, world.frames - 2)) % world.frames
+        in2 = [n for n in world.nodes() if world.time(n) == t2]
+        if in2:
+            n2 = _pick(rnd, in2)
+            idx2 = np.nonzero(seg[t2] == n2)
+            k2 = rnd.randint(1, len(idx2[0]))  # part of it, or all
+            m2 = np.zeros(world.shape, dtype=bool)
+            m2[tuple(a[:k2] for a in idx2)] = True
+            op["second_frame"] = {"time": t2, "pixels": [a.tolist() for a in np.nonzero(m2)],
+                                  "first": rnd.random() < 0.5}
+        return op
     if bad and value != 0 and world.frames > 1 and rnd.random() < 0.6 and not op.get("report_unchanged"):
         # invalid argument: one update whose pixels span two time points
         t2 = (t + 1 + rnd.randint(0, world.frames - 2)) % world.frames
